@@ -66,7 +66,7 @@ REQUIRED_HITS = [
     'U2.checked_pass_deleting_with_own_present', 'U3.deleted_blob_class_checked', 'U3.survivor_checked',
     'U4.demanded.content.limit_nonzero', 'U4.demanded.network.limit_nonzero', 'U4.demanded.network.limit_zero',
     'U5.checked.content', 'U5.checked.network', 'U5.goal_hit_exactly_with_whole_MB_blobs_left', 'U6.checked',
-    'in.own', 'in.downloaded', 'in.network', 'in.all_three_classes', 'in.stream_without_file_row', 'in.streaming_only_file_row',
+    'remount.with_own_blobs', 'U2.checked_against_ownership_recorded_before_restart', 'in.own', 'in.downloaded', 'in.network', 'in.all_three_classes', 'in.stream_without_file_row', 'in.streaming_only_file_row',
     'in.pending_row', 'in.loaded_in_manager', 'in.real_publish', 'in.ownership_flip', 'in.size.lt_1MiB', 'in.size.eq_1MiB',
     'in.size.1MiB_pm1', 'in.size.eq_2MiB', 'in.age_ties', 'in.empty_store', 'repeat.pass_2plus', 'repeat.same_limits',
 ] + [f'limit.{w}.{c}' for w in ('content', 'network') for c in ('zero', 'far_below', 'minus1', 'equal', 'plus1', 'far_above')]
@@ -138,6 +138,13 @@ def fixed_specs():
     # over the limit but the only foreign blobs belong to a stream without a file row
     S.append({'streams': [_stream('dl0', 'dl', [MIB, MIB], file='none'), _stream('own0', 'own', [MIB])], 'net': [],
               'passes': [_p('clean', 1, 0)]})
+    # two start-ups before the pass: one while the blob directory is not visible (rows go to pending), one that sees the files again
+    # (rows re-registered as finished by the start-up reconciliation): what the user published stays the user's
+    S.append({'streams': [_stream('own0', 'own', [MIB, MIB], t0=10), _stream('dl0', 'dl', [MIB, MIB], t0=500)], 'net': _net([MIB]),
+              'passes': [_p('clean', 1, 0, pre={'kind': 'remount'}), _p('clean', 1, 0)]})
+    S.append({'streams': [{'id': 'ownR', 'kind': 'own', 'how': 'real', 'file': 'saved', 'plain': 2 * MIB + 5},
+                          _stream('dl0', 'dl', [MIB, MIB, MIB], t0=10)], 'net': [],
+              'passes': [_p('clean', 4, 0), _p('clean', 1, 0, pre={'kind': 'remount'})]})
     # empty store, every limit class
     S.append({'streams': [], 'net': [], 'passes': [_p('clean', 0, 0), _p('clean', 5, 5), _p('loop', 1, 1)]})
     # all three classes, both over, four identical passes
@@ -226,6 +233,8 @@ def make_spec(r, scale):
                 p['pre'] = {'kind': 'add_stream', 'stream': mk_stream(r.choice(['dl', 'dl', 'own']))}
             elif streams:
                 p['pre'] = {'kind': 'flip', 'sid': r.choice(streams)['id'], 'to': r.randrange(2)}
+        if p['pre'] is None and r.random() < .12:
+            p['pre'] = {'kind': 'remount'}
         passes.append(p)
     return {'streams': streams, 'net': net, 'passes': passes}
 
@@ -474,6 +483,7 @@ async def _run(rec, case, spec):
     os.mkdir(env.blob_dir)
     os.mkdir(env.dl)
     env.labels, env.sd_of = {}, {}
+    env.own_at_restart = None
     env.conn = None
     storage = None
     try:
@@ -532,6 +542,28 @@ async def _run(rec, case, spec):
                     await add_stream(env, m['stream'])
                 elif m['kind'] == 'flip' and m['sid'] in env.sd_of:
                     await storage.update_blob_ownership(env.sd_of[m['sid']], bool(m['to']))
+                    env.own_at_restart = None       # the user re-declared ownership: the database is the record again
+                elif m['kind'] == 'remount':
+                    # ownership as recorded when the daemon stops: nothing a restart does may take it away (seeded break C19-C:
+                    # the start-up re-registration replaced the rows, is_mine included)
+                    before = snapshot(env)
+                    env.own_at_restart = {h for h, row in before['blobs'].items() if row[2]}
+                    away = env.blob_dir + '.away'
+                    bm.stop()
+                    os.rename(env.blob_dir, away)
+                    os.mkdir(env.blob_dir)
+                    await bm.setup()
+                    bm.stop()
+                    os.rmdir(env.blob_dir)
+                    os.rename(away, env.blob_dir)
+                    await bm.setup()
+                    after = snapshot(env)
+                    if any(row[1] == 'finished' for h, row in before['blobs'].items() if h in before['disk']) and \
+                            [h for h, row in before['blobs'].items() if row[1] == 'finished' and h in before['disk']
+                             and after['blobs'].get(h, [0, ''])[1] != 'finished']:
+                        rec.log('remount.finished_blob_not_finished_again')
+                    if env.own_at_restart:
+                        rec.hit('remount.with_own_blobs')
             cur = snapshot(env)
             use = ref.Index(cur).usage()
             climit = resolve(p['c'], use['content'], p['hi'], prev[0])
@@ -568,6 +600,16 @@ async def _run(rec, case, spec):
                 raise RuntimeError(f"hook saw sub-passes {[x['is_net'] for x in records]} for op {p['op']}")
             for x in records:
                 rec.hit('pass.network' if x['is_net'] else 'pass.content')
+                if env.own_at_restart:
+                    rec.hit('U2.checked_against_ownership_recorded_before_restart')
+                    gone = sorted(h for h in x['pre']['blobs'] if h not in x['post']['blobs'] and h in env.own_at_restart)
+                    if gone:
+                        rec.violation('C19/U2/own-blob-deleted/ownership-lost-across-restart',
+                                      f'{len(gone)} blob(s) the user published (is_mine when the daemon was stopped, not re-declared since) were '
+                                      f'deleted by a {"network" if x["is_net"] else "content"} pass after two start-ups (blob directory away, then '
+                                      f'back), e.g. {name(gone[0])}; is_mine in the database now: {x["pre"]["blobs"][gone[0]][2]}',
+                                      {'pass_index': pi, 'op': p['op'], 'deleted_own': [name(h) for h in gone][:20],
+                                       'spec': spec if len(json.dumps(spec)) < 6000 else 'see case (seeded)'})
                 res = ref.judge_pass(x['pre'], x['post'], x['is_net'], x['lims'][0], x['lims'][1], x['order'], name=name)
                 for k, v in res['hits'].items():
                     rec.hit(k, v)
